@@ -313,6 +313,35 @@ class Ctx:
         self.solver.pop()
         return r != z3.unsat
 
+    def known(self, f):
+        """True / False if the path condition decides f, else None"""
+        f = z3.simplify(f)
+        if z3.is_true(f):
+            return True
+        if z3.is_false(f):
+            return False
+        self.solver.push()
+        self.solver.add(z3.Not(f))
+        r = self.solver.check()
+        self.solver.pop()
+        if r == z3.unsat:
+            return True
+        self.solver.push()
+        self.solver.add(f)
+        r = self.solver.check()
+        self.solver.pop()
+        if r == z3.unsat:
+            return False
+        return None
+
+    def ite(self, c, a, b):
+        k = self.known(c)
+        if k is True:
+            return a
+        if k is False:
+            return b
+        return z3.If(c, a, b)
+
     def decide(self, cond):
         """python bool for a (possibly symbolic) condition; forks the path"""
         if isinstance(cond, bool):
@@ -1353,12 +1382,14 @@ class Interp:
                 return obj.fields[name]
             # contract for attribute (property) access
             key = f"{obj.clsname}.{name}"
+            fi = self.lookup_method(obj, name, f)
             if key in f.unit.callees:
                 c = f.unit.callees[key]
                 if getattr(c, "is_property", False):
                     return c(self, obj)
+                if fi is not None and fi.is_static:
+                    return BoundModel(lambda interp, o, *a, **k: c(interp, *a, **k), obj, name)
                 return BoundModel(lambda interp, o, *a, **k: c(interp, o, *a, **k), obj, name)
-            fi = self.lookup_method(obj, name, f)
             if fi is not None:
                 loc = f.unit.classes.get(obj.clsname)
                 ref = FuncRef(fi, f"{fi.path}:{fi.qualname}", bound=None if fi.is_static else obj,
@@ -1378,7 +1409,11 @@ class Interp:
             m = self.models.obj_attr(self, obj, name)
             if m is not NotImplemented:
                 return m
-            raise PyRaise(AttributeError, (f"{obj.clsname}.{name}",), node)
+            if getattr(obj, "closed", False):
+                raise PyRaise(AttributeError, (f"{obj.clsname}.{name}",), node)
+            # the record is a partial model of the real object: an attribute the
+            # model does not have is a limit of the model, not an AttributeError
+            raise Unsupported(f"model of {obj.clsname} has no attribute '{name}'")
         if is_sym(obj) or isinstance(obj, (PyRaiseValue,)):
             m = self.models.sym_attr(self, obj, name)
             if m is NotImplemented:
